@@ -60,7 +60,7 @@ pub struct Cpu {
     pub gdtr: (u16, u64),
     pub idtr: (u16, u64),
     pub tr: u16,
-    pub sreg: [u16; 6],
+    pub sreg: [u32; 6],
     pub port_seed: u64,
     pub port_seq: u64,
     pub unknown: u64,
@@ -326,7 +326,7 @@ unsafe fn emulate(ctx: &Ctx) -> bool {
             t.a = (m.reg & 7) as u64;
             t.b = v;
             if (m.reg & 7) < 6 {
-                c.sreg[m.reg & 7] = v as u16;
+                c.sreg[m.reg & 7] = (v as u16) as u32;
             }
         }
         0xcb => {
@@ -338,7 +338,7 @@ unsafe fn emulate(ctx: &Ctx) -> bool {
             t.op = Op::Retfq;
             t.a = cs;
             t.b = new_rip;
-            c.sreg[1] = cs as u16;
+            c.sreg[1] = (cs as u16) as u32;
             t.len = (p as u64) - rip;
             c.push(t);
             ctx.set_rip(new_rip);
